@@ -74,10 +74,11 @@ class Elem:
         return "e=" + "/".join(str(int(x)) if isinstance(x, bool) else str(x) for x in fields)
 
 
-def features(starttls=False, mechs=(), zlib=False, bind=False, session=None, sm=False, extra_mech_names=()):
+def features(starttls=False, mechs=(), zlib=False, bind=False, session=None, sm=False, extra_mech_names=(), tls_required=False):
     inner, cns = "", []
     if starttls:
-        inner += "<starttls xmlns='%s'/>" % NSURI["tls"]
+        # (<required/> is only in the bytes: the library, and therefore the model, does not look at it)
+        inner += ("<starttls xmlns='%s'><required/></starttls>" % NSURI["tls"]) if tls_required else ("<starttls xmlns='%s'/>" % NSURI["tls"])
         cns.append("tls")
     if mechs or extra_mech_names:
         inner += "<mechanisms xmlns='%s'>%s</mechanisms>" % (NSURI["sasl"], "".join("<mechanism>%s</mechanism>" % m for m in list(mechs) + list(extra_mech_names)))
@@ -641,7 +642,7 @@ def server_script(rng, cfg, comp=False, raw=False):
     if rng.random() < .4 and "PLAIN" not in mechs:
         mechs.append("PLAIN")
     steps.append(["h1"])
-    steps.append([features(offer_tls, mechs)])
+    steps.append([features(offer_tls, mechs, tls_required=offer_tls and rng.random() < .3)])
     if offer_tls and cfg["tlsnew"]:
         steps.append([simple("tls", "proceed")])
         steps.append(["h1"])
@@ -1473,6 +1474,18 @@ def deadline_scenarios(rng, thorough=False):
             sc = Scenario(ops, "deadline:healthy-%s:%s" % (name, "+".join(map(str, delta))))
             sc.expect = (10 ** 12, "same", ("E:disconnect", "W:close", "T:close"), mark)
             S.append(sc)
+    # a slow but healthy server: every single wait stays below its deadline, consecutive waits add up to more than one
+    for name, st_, fl in (("tls", happy_client(tls=True, sm=True), 0), ("plain-session", happy_client(tls=False, session="req", sm=True), 0),
+                          ("zlib", happy_client(tls=False, sm=False, zlib=True), 64)):
+        for gap in (8000, 14999):
+            ops = base_ops(flags=fl, user=(1, 1000000)) + [("connect", "client", ["accept"]), ("run", None)]
+            mark = len(ops)
+            for c in st_:
+                ops += [("clock", gap), ("run", ("items", list(c))), ("run", None)]
+            ops += [("is",), ("clock", 60000), ("run", None), ("is",), ("release",)]
+            sc = Scenario(ops, "deadline:slow-%s:%d" % (name, gap))
+            sc.expect = (10 ** 12, "same", ("E:disconnect", "W:close", "T:close"), mark)
+            S.append(sc)
     for delta in ((14999, 1, 1, 1), (16000, 60000)):
         ops = base_ops(user=(0, None)) + [("connect", "component", ["accept"]), ("run", None)] + \
             runs(["h1"], [Elem("component", "handshake", xml="<handshake xmlns='jabber:component:accept'/>")]) + [("is",)]
@@ -1558,7 +1571,7 @@ def policy_scenarios(rng, thorough=False):
                 for answer in ("proceed", "tlsfail", "none", "verdictfail", "tlsnewfail"):
                     if not offer_tls and answer not in ("none",):
                         continue
-                    chunks = [["h1"], [features(offer_tls, mechs)]]
+                    chunks = [["h1"], [features(offer_tls, mechs, tls_required=offer_tls and (len(S) % 3 == 1))]]
                     verdicts, tlsnew = [], 1
                     if answer == "proceed":
                         post = rng.choice([["PLAIN"], mechs, mechs, ["SCRAM-SHA-256", "DIGEST-MD5"], ["PLAIN", "SCRAM-SHA-1"]])
